@@ -533,23 +533,33 @@ class C14History(Suite):
 
     # case = {"graphs": [graph...], "ops": [["add", i, triple] | ["rem", i, triple] | ["cmp", i, j]], "fam": str}
     def gen(self, rng, i):
+        # Every state of every object is a disjoint union of directed cycles of length >= 2 (optionally with
+        # attributes): the families on which rdflib's verdicts are stable.  Richer symmetric graphs with edits
+        # (self-loops, irregular re-wirings of cube/prism) run into finding FC14b (label-dependent verdicts).
+        n = rng.choice([4, 5, 6, 6, 7, 8, 8])
+        def cycles(n):
+            parts, start = [], 0
+            while start < n:
+                m = rng.choice([2, 3, 4, n]) if n - start >= 4 else n - start
+                m = min(m, n - start)
+                if n - start - m == 1:
+                    m += 1
+                parts += cyc(list(range(start, start + m)))
+                start += m
+            return parts
         r = rng.random()
-        if r < 0.35:
-            e1, e2, n = rng.choice(TWINS)
-            e1, e2 = list(e1), list(e2)
-            if rng.random() < 0.5:
-                e1, e2 = e2, e1
-            fam = "twins"
-        elif r < 0.6:
-            n = rng.choice([4, 6, 6, 8, 8])
+        if r < 0.4:
             e1 = cyc(list(range(n)))
-            k = n // 2 - 1  # two equal cycles: unequal parts / a self-loop remainder are the region of finding FC14b
-            e2 = cyc(list(range(k + 1))) + cyc(list(range(k + 1, n)))
+            k = n // 2
+            e2 = cyc(list(range(k))) + cyc(list(range(k, n))) if k >= 2 and n - k >= 2 else cycles(n)
             fam = "cycle"
         else:
-            fam, e1, n = structures(rng)
-            e1 = decorate(rng, e1, n)
-            e2 = perturb(rng, e1, n)
+            e1, e2 = cycles(n), cycles(n)
+            fam = "cycles"
+        if rng.random() < 0.3:
+            c = rng.choice([1, 5, 6, 9])
+            e1 = e1 + [(j, Q, ("c", c)) for j in range(n)]
+            e2 = e2 + [(j, Q, ("c", c)) for j in range(n)]
         pools = []
         for k in range(3):
             pool = list(range(10 * k, 10 * k + n)) if rng.random() < 0.6 else list(range(n))
@@ -576,7 +586,8 @@ class C14History(Suite):
                     t2 = nxt.get(t1[2][1], t2)
                     t2 = nxt.get(t2[2][1], t2)
                 n1, n2 = [t1[0], t1[1], t2[2]], [t2[0], t2[1], t1[2]]
-                if t1 != t2 and t1[1] == t2[1] and n1 not in g and n2 not in g and n1 != n2:
+                if (t1 != t2 and t1[1] == t2[1] and n1 not in g and n2 not in g and n1 != n2
+                        and n1[0] != n1[2] and n2[0] != n2[2]):
                     for t in (t1, t2):
                         g.remove(t)
                         ops.append(["rem", k, t])
@@ -593,12 +604,12 @@ class C14History(Suite):
             r2 = rng.random()
             if r2 < 0.7:
                 rewire(k)
-            elif r2 < 0.85 and cur[k]:
-                t = rng.choice(cur[k])
+            elif r2 < 0.85 and [t for t in cur[k] if t[2][0] == 0]:
+                t = rng.choice([t for t in cur[k] if t[2][0] == 0])  # drop an attribute
                 cur[k].remove(t)
                 ops.append(["rem", k, t])
             else:
-                t = [B(rng.choice(pools[k])), C(rng.choice([P, Q])), rng.choice([B(rng.choice(pools[k])), C(1), C(5)])]
+                t = [B(rng.choice(pools[k])), C(Q), rng.choice([C(1), C(5), C(6)])]
                 if t not in cur[k]:
                     cur[k].append(t)
                 ops.append(["add", k, t])  # possibly a re-add of a present triple
